@@ -70,16 +70,47 @@ def run(ctx):
             if pos != marks or rd.read() != b"":
                 aligned = 0
             ochans.append(dict(backs=backs, aligned=aligned))
-        # dumpb / loadb for the object terms (top-level API)
+        # dumpb / loadb for the object terms (top-level API), as a HISTORY of calls in one process: refused objects in between must leave nothing behind
+        def fresh_bytes(o):
+            b = io.BytesIO()
+            S.serialize_value(b, o)
+            return b.getvalue()
+        last_valid = None
+        nhist = 0
         for t in vals:
-            if t["t"] == "obj" and all(x["t"] != "bad" for x in t["e"]):
+            if t["t"] != "obj":
+                continue
+            valid = all(x["t"] != "bad" for x in t["e"])
+            try:
+                o = CT.concretise(t)
+            except Exception:
+                continue
+            probes = [(t, o)] if valid else [(t, o)] + ([last_valid] if last_valid else [])
+            for tt, oo in probes:
+                nhist += 1
                 try:
-                    o = CT.concretise(t)
-                    back = S.Serializable.loadb(o.dumpb())
-                    if type(back) is not type(o):
-                        ctx.fail("loadb(dumpb(x)) returns %s for a %s" % (type(back).__name__, type(o).__name__), dict(term=t))
+                    want = fresh_bytes(oo)
                 except Exception:
-                    pass
+                    want = None                       # out of domain: dumpb must refuse as well
+                try:
+                    got = oo.dumpb()
+                except Exception:
+                    got = None
+                if (got is None) != (want is None) or (got is not None and got != want):
+                    ctx.fail("dumpb() of %s gives %s, serialize_value on a fresh stream gives %s (call %d of a history in which refused objects precede it)"
+                             % (json.dumps(tt)[:200], "a refusal" if got is None else "%d bytes" % len(got), "a refusal" if want is None else "%d bytes" % len(want), nhist), dict(term=tt, history_position=nhist))
+                    break
+                if got is not None:
+                    try:
+                        back = S.Serializable.loadb(got)
+                        # (value equality modulo the documented normal form - tuples as lists, float32 - is judged by TLC on the value rows; here: same class, and re-encoding is stable)
+                        if type(back) is not type(oo) or len(fresh_bytes(back)) != len(got):        # (length, not bytes: the element order of a set is not part of its value)
+                            ctx.fail("loadb(dumpb(x)) is not x for %s (class or size of the re-encoding differs)" % json.dumps(tt)[:200], dict(term=tt))
+                    except Exception as e:
+                        ctx.fail("loadb(dumpb(x)) raises %s for %s" % (type(e).__name__, json.dumps(tt)[:200]), dict(term=tt))
+            if valid:
+                last_valid = (t, o)
+        ctx.extra["dumpb_history_calls"] = nhist
         obs = os.path.join(wd, "obs.json")
         open(obs, "w").write(json.dumps(dict(values=ovals, chans=ochans)))
         r = ctx.mc("Obs_Codec", "INIT ObsInit\nNEXT CNext\n" + consts + "INVARIANT AllOK\nINVARIANT Complete\nALIAS Where\nCHECK_DEADLOCK FALSE\n", env=dict(OUT_FILE=inp, OBS_FILE=obs),
